@@ -201,10 +201,11 @@ Definition map_update (m1 m2 : list (string * string)) : list (string * string) 
 Definition nonempty_kv (kv : string * string) : bool := negb (String.eqb (snd kv) "").
 
 (* ---------- the extraction oracle of the regexp stage ----------
-   re_groups pattern haystack = arrayMap(x -> x[length(x)], extractAllGroupsHorizontal(haystack, pattern)):
-   one string per capture group of the pattern (numbered by opening parenthesis), the text the group captured in the LAST
-   match of the pattern in the haystack ('' when there is no match or the group took no part in it: a subscript 0 of an
-   empty array is the default value); None = ClickHouse exception (the pattern is not RE2, or has no capture group).
+   re_groups pattern haystack = arrayMap(x -> x[1], extractAllGroupsHorizontal(haystack, pattern)):
+   one string per capture group of the pattern (numbered by opening parenthesis), the text the group captured in the FIRST
+   match of the pattern in the haystack, as LogQL defines the stage (it was the last match, x[length(x)], before the repair
+   regexp-last-match); '' when there is no match or the group took no part in it (a subscript outside the bounds of an
+   array is the default value); None = ClickHouse exception (the pattern is not RE2, or has no capture group).
    The oracle is a type class with the default instance no_groups (declared below the evaluator), so that the statements
    of the other properties that use this evaluator - none of them reads a regexp stage - keep their four oracles; the
    C07 theorems quantify over every instance. *)
@@ -215,7 +216,7 @@ Definition re_pair_ok (kv : string * string) : bool := negb (String.eqb (fst kv)
 Definition re_pairs (names vals : list string) : list (string * string) := filter re_pair_ok (combine names vals).
 (* the text of regexMap around the label names and the expression, with the id 0 the model draws under WithId *)
 Definition regex_map_t1 : string := "mapFromArrays(arrayFilter( (x,y) -> x != '' AND y != '',  [".
-Definition regex_map_t2 : string := "] as re_lbls_0,  arrayMap(x -> x[length(x)], extractAllGroupsHorizontal(string, ".
+Definition regex_map_t2 : string := "] as re_lbls_0,  arrayMap(x -> x[1], extractAllGroupsHorizontal(string, ".
 Definition regex_map_t3 : string := ")) as re_vals_0),arrayFilter((x,y) -> x != '' AND y != '', re_vals_0, re_lbls_0))".
 
 Fixpoint strs_eqb (a b : list string) : bool :=
